@@ -25,7 +25,7 @@ import arimgen
 
 chk = Check("C03", design_ref="DESIGN.md §5 C03")
 chk.proofs(extra_trusted=[
-    "qratio_end_to_end_partial: the instantiation of the interface/telescoping lemmas on the concrete paths is measured (kappa constancy on the real code), not mechanised",
+    "qratio_beyond_critical_partial: Q c_last^2 sigma = kappa Q' is mechanised end to end (qratio_model_path, through the model's own transrefl / reverse_transrefl / beamspread / reverse_beamspread, any mode word) for rays whose waves are all sub-critical; rays with a wave beyond a critical angle are measured on the real code (kappa constancy), not mechanised",
     "scatterer reciprocity (C09) is a hypothesis of view_reciprocity; random reciprocal matrices are built by the harness",
 ])
 arim = chk.import_arim()
